@@ -383,6 +383,75 @@ def ftpRequestFile (s : Server) (b : Backup) (pathReq pathResp sendOk : Bool) : 
         | none => ({ s1 with downloads := some bh, dlFolder := true }, true)
       else (s1, true)
 
+/-! #### vocabulary of the TRANSLATED FTP layer (Gen/DatabaseFtpTr.lean, harness/extract/database_ftp_tr.py)
+
+The translated `FTPClient` / `FTPServer` / `FTPServiceABC` methods work on `FtpW`: both ends of the conversation and the path
+between them.  `C17_tr_ftp_send_file` / `C17_tr_ftp_request_file` prove them equal to `ftpSendFile` / `ftpRequestFile` above. -/
+
+inductive FtpCmd | port | stor | retr | quit | other
+deriving DecidableEq, Repr
+
+inductive FtpStatus | ok | error | notFound
+deriving DecidableEq, Repr
+
+/-- the three named places the database's transfers use: `database/database.db` and `downloads/database.db` on the database
+host, `<uuid>/database.db` on the backup host -/
+inductive Loc | dbFile | stored | downloads
+deriving DecidableEq, Repr
+
+/-- an `FTPPacket`: the command, the status code the receiver writes INTO the object the sender still holds, and the
+arguments as far as they are used -/
+structure FtpPkt where
+  cmd : Option FtpCmd := none
+  status : Option FtpStatus := none
+  src : Option Loc := none
+  dest : Option Loc := none
+  health : Option FHealth := none
+  /-- PORT: `is_valid_port(ftp_command_args)` -/
+  portArg : Bool := true
+deriving DecidableEq, Repr
+
+inductive Side | client | server
+deriving DecidableEq, Repr
+
+structure FtpW where
+  s : Server
+  b : Backup
+  pathReq : Bool
+  pathResp : Bool
+  big : Bool
+  sendOk : Bool
+  /-- what `send` reports for a frame that does not arrive (unknown to the model: every theorem quantifies over it) -/
+  lost : Bool
+deriving DecidableEq, Repr
+
+/-- `_can_perform_action()` of the FTP client on the database host / of the FTP server on the backup host -/
+def FtpW.canAct (w : FtpW) : Side → Bool
+  | .client => w.s.ftpcAct
+  | .server => w.b.serves
+
+def FtpW.getFile (w : FtpW) : Side → Loc → Option FHealth
+  | .client, .dbFile => w.s.file
+  | .client, .downloads => w.s.downloads
+  | .server, .stored => w.b.stored
+  | _, _ => none
+
+/-- `file_system.create_file`: `none` = it raises (a live file of that name exists); the new file is GOOD; a place the model
+does not track on that host is "created" without a trace -/
+def FtpW.createFile (w : FtpW) : Side → Loc → Option FtpW
+  | .client, .dbFile => if w.s.file.isSome then none else some { w with s := { w.s with file := some .good, folder := true } }
+  | .client, .downloads =>
+    if w.s.downloads.isSome then none else some { w with s := { w.s with downloads := some .good, dlFolder := true } }
+  | .server, .stored => if w.b.stored.isSome then none else some { w with b := { w.b with stored := some .good } }
+  | _, _ => some w
+
+/-- `file.health_status = h` -/
+def FtpW.setHealth (w : FtpW) : Side → Loc → FHealth → FtpW
+  | .client, .dbFile, h => { w with s := { w.s with file := w.s.file.map (fun _ => h) } }
+  | .client, .downloads, h => { w with s := { w.s with downloads := w.s.downloads.map (fun _ => h) } }
+  | .server, .stored, h => { w with b := { w.b with stored := w.b.stored.map (fun _ => h) } }
+  | _, _, _ => w
+
 /-- `backup_database`: the guards, then the transfer. -/
 def backupDatabase (s : Server) (b : Backup) (pathReq : Bool) (big : Bool := true) : Server × Backup × Bool :=
   if !s.canAct then (s, b, false)
